@@ -63,10 +63,11 @@ def run(ctx):
         ctx.check(ok, 'R-PAIRCALL', 'offset/no-union', iff.loc(), 'without use_union the original paths are offset directly')
     C05.check_tree(ctx, db)
     C05.check_conversions(ctx, db)
+    C05.check_overflow(ctx, db)
 
 
 MANIFEST = dict(
-    text='Decides the structural necessary conditions on gdstk\'s side of offsetting: complete OffsetJoin -> JoinType table; MiterLimit only under Miter and ArcTolerance (in grid units, distance x scaling x (1 - cos(pi/tolerance))) only under Round; the offsetter receives distance x scaling with the same scaling used for coordinates in and out; the union pre-pass runs exactly under use_union, precedes the offset and replaces (not supplements) the original paths; the result tree is walked completely and conversions round with llround. The distance semantics of ClipperOffset is not decided.',
+    text='Decides the structural necessary conditions on gdstk\'s side of offsetting: complete OffsetJoin -> JoinType table; MiterLimit only under Miter and ArcTolerance (in grid units, distance x scaling x (1 - cos(pi/tolerance))) only under Round; the offsetter receives distance x scaling with the same scaling used for coordinates in and out; the union pre-pass runs exactly under use_union, precedes the offset and replaces (not supplements) the original paths; the result tree is walked completely, hole linking multiplies grid differences in floating point (no 64-bit wrap) and conversions round with llround. The distance semantics of ClipperOffset is not decided.',
     note='Trusted: clang front end, gx, sa rules; external/clipper is out of the analysed set.',
     technique='table extraction + unit/shape rules + ordering (pairing) rule over typed ASTs',
     design='§4 C13')
